@@ -179,11 +179,41 @@ def _impl(tier, seed, search):
                             L.fail(f'slice-raises:{"step" + str(st) if st not in (None, 1) else ("negstop" if (b_ is not None and b_ < 0) else ("negstart" if (a is not None and a < 0) else "plain"))}',
                                    f'{c}: x[{a}:{b_}:{st}] on length {n} raised {type(e).__name__}; a list gives {len(want)} items', dict(cls=c, length=n, slice=[a, b_, st]))
                             continue
+                        if got is X or (len(want) > 0 and got.data is X.data):
+                            L.fail('slice-alias', f'{c}: x[{a}:{b_}:{st}] on length {n} returns the object itself (or shares its value list): a list slice is a new list', dict(cls=c, length=n, slice=[a, b_, st]))
+                            continue
                         okc = type(got) is cls and len(got) == len(want) and all(np.allclose(np.asarray(x_, float), w) for x_, w in zip(got.data, want))
                         if not okc:
                             L.fail(f'slice-value:{"step" + str(st) if st not in (None, 1) else ("negstop" if (b_ is not None and b_ < 0) else ("negstart" if (a is not None and a < 0) else ("overlong" if (b_ is not None and b_ > n) or (a is not None and a > n) else "plain")))}',
                                    f'{c}: x[{a}:{b_}:{st}] on length {n} has {len(got) if hasattr(got, "__len__") else "?"} items of class {type(got).__name__}; a list gives {len(want)}', dict(cls=c, length=n, slice=[a, b_, st]))
     L.sample('slice', dict(cls='SE3', length=4, slice=[0, -1, None]))
+    # ---- the spatial-vector classes are list-capable too: slices, indices and construction from lists, lengths 0..8 (6 x 6 is a matrix form) ----
+    from spatialmath.spatialvector import SpatialVelocity, SpatialAcceleration, SpatialForce, SpatialMomentum
+    for scls in (SpatialVelocity, SpatialAcceleration, SpatialForce, SpatialMomentum):
+        for n in range(1, 9):
+            vals = [g.normal(size=6) for _ in range(n)]
+            try: X = scls(vals[0]) if n == 1 else scls([v_.copy() for v_ in vals])
+            except Exception as e:
+                L.fail(f'spatial-ctor:{n}', f'{scls.__name__}(list of {n} 6-vectors) raised {type(e).__name__}', dict(cls=scls.__name__, length=n)); continue
+            L.count('spatial-ctor')
+            if len(X) != n or not all(np.allclose(np.asarray(x_, float).ravel(), w) for x_, w in zip(X.data, vals)):
+                L.fail('spatial-ctor:value', f'{scls.__name__}(list of {n} 6-vectors) does not hold those vectors in order', dict(cls=scls.__name__, length=n)); continue
+            for a in (None, 0, 1, 2, -1, -7):
+                for b_ in (None, n, n - 1, 7, 6, -1):
+                    for st in (None, 1, 2, -1):
+                        sl = slice(a, b_, st); want = vals[sl]; L.count('slice')
+                        try: got = X[sl]
+                        except Exception as e:
+                            L.fail('slice-raises:spatial', f'{scls.__name__}: x[{a}:{b_}:{st}] on length {n} raised {type(e).__name__}; a list gives {len(want)} items', dict(cls=scls.__name__, length=n, slice=[a, b_, st])); continue
+                        okc = type(got) is scls and len(got) == len(want) and all(np.allclose(np.asarray(x_, float).ravel(), w) for x_, w in zip(got.data, want))
+                        if not okc: L.fail('slice-value:spatial', f'{scls.__name__}: x[{a}:{b_}:{st}] on length {n} does not hold the {len(want)} values a list slice gives', dict(cls=scls.__name__, length=n, slice=[a, b_, st]))
+            for i in range(-n, n):
+                L.count('index')
+                try: gi = X[i]
+                except Exception as e:
+                    L.fail('index:spatial', f'{scls.__name__}: x[{i}] on length {n} raised {type(e).__name__}', dict(cls=scls.__name__, length=n, index=i)); continue
+                if type(gi) is not scls or len(gi) != 1 or not np.allclose(np.asarray(gi.data[0], float).ravel(), vals[i]):
+                    L.fail('index:spatial', f'{scls.__name__}: x[{i}] on length {n} is not element {i}', dict(cls=scls.__name__, length=n, index=i))
     # ---- constructors: list of objects, Empty, Alloc -------------------------------------------
     for c in classes:
         cls, one = CL[c]
